@@ -77,6 +77,8 @@ class Interp(object):
     if is_sym(v):
       return v
     v = np.asarray(v)
+    if v.dtype == object:
+      return v
     out = np.empty(v.shape, dtype=object)
     flat = out.reshape(-1) if v.size else out
     src = v.reshape(-1)
